@@ -57,6 +57,7 @@ def outcome_of(run):
 
 
 _SHARED = {}
+INIT_DIR = [None]
 INIT_CODE = 'seen = set()\ncalls = [0]\ndef first_time(x):\n    calls[0] += 1\n    if x in seen:\n        return False\n    seen.add(x)\n    return True\n'
 
 
@@ -86,6 +87,28 @@ def solo(text, A, B, names, style='full'):
             stream = io.StringIO()
             eng.query(text, eng.TableIterator(A2, names), tree.csvmod().CSVWriter(stream, False, None, ',', 'quoted'), warns)
             return stream.getvalue().split('\n'), None, warns
+        if style.startswith('initfile'):
+            # the documented init file ~/.rbql_init_source.py, (re)written by the user before this query: the query sees the file as it is now
+            import atexit, shutil, tempfile
+            if INIT_DIR[0] is None:
+                INIT_DIR[0] = tempfile.mkdtemp(prefix='vfc16i.', dir='/dev/shm' if os.path.isdir('/dev/shm') else None)
+                atexit.register(shutil.rmtree, INIT_DIR[0], True)
+            d = INIT_DIR[0]
+            with open(os.path.join(d, '.rbql_init_source.py'), 'w') as f:
+                f.write("def tag(x):\n    return '%s:' + x\n" % style)
+            with open(os.path.join(d, 'in.csv'), 'w') as f:
+                f.write(''.join(','.join('' if c is None else c for c in r) + '\n' for r in A))
+            saved_home = os.environ.get('HOME')
+            os.environ['HOME'] = d
+            try:
+                tree.load().query_csv(text, os.path.join(d, 'in.csv'), ',', 'quoted', os.path.join(d, 'out.csv'), ',', 'quoted', 'utf-8', warns, False)
+            finally:
+                if saved_home is None:
+                    os.environ.pop('HOME', None)
+                else:
+                    os.environ['HOME'] = saved_home
+            with open(os.path.join(d, 'out.csv')) as f:
+                return f.read().split('\n'), None, warns
         if style == 'init':
             # the caller's init code keeps state of its own (a set of values seen so far): every query starts from the code's initial state
             eng.query_table(text, A2, out, warns, B2, names, bn, hdr, True, INIT_CODE)
@@ -223,6 +246,8 @@ def scenarios(which='main'):
             ('select top 1 *', Ts, None, None, 'shared_csv'),
             ('select NR == 1, NR * 1.0, a1, NR', Ts, None, None, 'shared_csv'),          # True / 1.0 / 1 in one output and across outputs: equal as values, different as text
             ('select a1, first_time(a1), calls[0]', Ts, None, None, 'init'),
+            ('select tag(a1), a2', Tn, None, None, 'initfile_v1'),
+            ('select tag(a1), a2', Tn, None, None, 'initfile_v2'),
             ('select first_time(a2), a1 where first_time(a1)', Tn, None, None, 'init'),
         ]
     T0 = [['k', '1;2'], ['m', '3'], ['k', '4;5']]
@@ -311,6 +336,8 @@ def part_history(sh, res):
     prefix = sh['prefix']
     # bring this worker's interpreter into the state reached by the prefix (each prefix node is judged by the shard that owns it)
     summary = {'nodes': 0, 'edges': 0, 'viol': [], 'digests': {}}
+    import tempfile, shutil
+    INIT_DIR[0] = tempfile.mkdtemp(prefix='vfc16i.', dir='/dev/shm' if os.path.isdir('/dev/shm') else None)      # shared by every (sequentially run) forked node of this shard
     r, w = os.pipe()
     pid = os.fork()
     if pid == 0:
@@ -335,6 +362,8 @@ def part_history(sh, res):
     with os.fdopen(r, 'rb') as f:
         data = f.read()
     os.waitpid(pid, 0)
+    shutil.rmtree(INIT_DIR[0], ignore_errors=True)
+    INIT_DIR[0] = None
     summary = json.loads(data.decode())
     res.states += summary['nodes']
     res.transitions += summary['edges']
@@ -404,7 +433,7 @@ def main(tier, seed):
     res = core.run_shards('vf.checks.c16', shards)
     return core.finish(PID, tier, seed, res, t0,
         rule='threads: all unordered pairs of 14 query kinds (same-kind pairs with different data) x every interleaving of their scheduling points (start, each get_record on input and join table, each write, finish) within the preemption bound, plan (records, bound) = %r; '
-             'histories: the complete tree of sequences of <= %d events over 25 scenarios, every node a forked live interpreter; a second tree of sequences of <= %d events over 12 scenarios that all run on the SAME caller-owned table objects (None cells, CSV and table writers); states = interleavings + history nodes, transitions = baton grants + history edges; '
+             'histories: the complete tree of sequences of <= %d events over 25 scenarios, every node a forked live interpreter; a second tree of sequences of <= %d events over 14 scenarios that all run on the SAME caller-owned table objects (None cells, CSV and table writers); states = interleavings + history nodes, transitions = baton grants + history edges; '
              'non-trivial = schedules with >= 2 context switches / histories of length >= 1' % (plan, depth, sdepth),
         assumptions=['scheduling points are exactly the points the property names; code between them runs atomically', 'the solo outcome is computed in a fresh python subprocess per query'],
         extra={'pairs': npairs, 'interleavings': total_interleavings, 'history_depth': depth, 'plan_records_and_preemption_bound': [[n, ('all' if b is None else b)] for n, b in plan]},
